@@ -12,14 +12,13 @@ LONG = ','.join(['memset.0:200', 'memcmp.0:18', '_ZL10copy_bytesPhPKhj.0:18', '_
 B = 'add sizes %s from the empty pool, 16 symbolic data bytes per add (a later add may repeat the first constant, its upper half or its bytes 4..7), then (sequences 1,4,2 / 1,8,1 / 2,65 / 0,3 only) fill() into a guarded 56-byte image'
 HARNESSES = [
     Harness('pool', 'h_pool_' + nm, unwind=5, unwindset=LONG + ''.join(',h_pool_%s.%d:%d' % (nm, i, 22 if i < 2 else 9) for i in range(24)), mem_gb=mem, timeout=to, tiers=tiers, bounds=B % nm.replace('_', ','))
-    for nm, mem, to, tiers in (('1_4_2', 6, 900, ('quick', 'thorough')), ('4_4', 6, 900, ('quick', 'thorough')), ('8_4', 8, 1800, ('thorough',)),
-                               ('2_65', 4, 600, ('quick', 'thorough')), ('0_3', 4, 600, ('quick', 'thorough')), ('1_4_1', 6, 900, ('quick', 'thorough')), ('1_8_1', 8, 1800, ('thorough',)), ('4_8_4', 8, 3600, ('thorough',)),
-                               ('4_4_4', 8, 3600, ('thorough',)), ('8_8', 8, 3600, ('thorough',)), ('16_8_4', 8, 3600, ('thorough',)), ('4_8', 8, 1800, ('thorough',)))
+    for nm, mem, to, tiers in (('1_4_2', 4, 900, ('quick', 'thorough')), ('4_4', 4, 900, ('quick', 'thorough')), ('2_65', 4, 600, ('quick', 'thorough')),
+                               ('0_3', 4, 600, ('quick', 'thorough')), ('1_4_1', 4, 900, ('quick', 'thorough')))
 ] + [
-    Harness('pool', 'h_pool_8_lookup', unwind=5, unwindset=LONG + ''.join(',h_pool_8_lookup.%d:%d' % (i, 22 if i < 2 else 9) for i in range(24)), mem_gb=6, timeout=900,
+    Harness('pool', 'h_pool_8_lookup', unwind=5, unwindset=LONG + ''.join(',h_pool_8_lookup.%d:%d' % (i, 22 if i < 2 else 9) for i in range(24)), mem_gb=7, timeout=1200,
             bounds='one add of 8 symbolic bytes, then the pool\'s own lookup (Tree::get) for both 4-byte halves and for 4 arbitrary bytes'),
 ]
 EXPLANATION = 'bounded symbolic execution (CBMC) of the real ConstPool::add / fill compiled from /repo; offsets and the written image are compared with a list of the constants kept by the harness'
-OUTSIDE = ['fill() of pools whose trees hold more than one node of a size class (tree walks through the tagged links exhaust the memory cap)', 'size sequences other than the ones listed per harness (sizes are constants per harness: with symbolic sizes the solver reaches no verdict)', 'constants of 32 and 64 bytes (a 64-byte constant registers 30 shared sub-constants: beyond the memory cap of one query)', 'more than 3 adds', 'pools that are not empty at the start']
+OUTSIDE = ['measured and dropped (out of memory at the 8 GB cap of one query after 30..280 s): size sequences 8,4 / 4,8 / 8,8 / 1,8,1 / 4,4,4 / 4,8,4 / 16,8,4, i.e. every scenario in which a tree of the pool receives a third node or a node is added next to two shared ones; sharing is therefore checked by lookup after one 8-byte add (h_pool_8_lookup), not through a second add', 'fill() of pools whose trees hold more than one node of a size class (tree walks through the tagged links exhaust the memory cap)', 'size sequences other than the ones listed per harness (sizes are constants per harness: with symbolic sizes the solver reaches no verdict)', 'constants of 32 and 64 bytes (a 64-byte constant registers 30 shared sub-constants: beyond the memory cap of one query)', 'more than 3 adds', 'pools that are not empty at the start']
 ASSUMPTIONS = ['Arena::_alloc_oneshot is a harness stub handing out one 56-byte object per request (the arena is checked by C18); allocation never fails (D3 / C15)',
                'memset is a byte loop for the solver']
